@@ -176,7 +176,8 @@ fn scan_msl(text: &str) -> Result<Vec<Decl>, String> {
             let slot: u32 = rest[..rest.find(')').ok_or("bad id")?].parse().map_err(|_| "bad id number")?;
             let decl = rest[rest.find("]]").ok_or("bad id attr")? + 2..].trim().trim_end_matches(';');
             // metal::array<T, n> name
-            let (ty, name, len) = if let Some(a) = decl.strip_prefix("metal::array<") {
+            // (a typedef'd array carries its const on the whole array: `const metal::array<T, n> name`)
+            let (ty, name, len) = if let Some(a) = decl.strip_prefix("metal::array<").or_else(|| decl.strip_prefix("const metal::array<")) {
                 let close = a.rfind('>').ok_or("bad metal::array")?;
                 let inner = &a[..close];
                 let comma = inner.rfind(',').ok_or("bad metal::array args")?;
